@@ -151,9 +151,9 @@ func c14Run(c c14Case) []mc.Finding {
 	x := c14Build(c.Cfg, parts[0] == "related")
 	pinf := x.Informer(x.pk)
 	cinf := x.Informer(kit.Leaf)
-	want := map[string]bool{}     // keys that must be queued
-	mayAlso := map[string]bool{}  // keys that may be queued (statement is silent / permissive)
-	never := map[string]string{}  // keys that must not be queued -> reason
+	want := map[string]bool{}    // keys that must be queued
+	mayAlso := map[string]bool{} // keys that may be queued (statement is silent / permissive)
+	never := map[string]string{} // keys that must not be queued -> reason
 	for id, p := range x.parents {
 		if !x.wanted(p) {
 			never[x.key(p)] = id + " neither matches nor carries the finalizer"
